@@ -1137,7 +1137,8 @@ class Mps(MatrixProduct):
             self.evolve_config.adaptive = False
             # ``evolve_dt`` has been converted to a real number for imaginary time evolution
             half_dt = -1j * evolve_dt / 2 if imag_time else evolve_dt / 2
-            environ_mps = self.evolve(mpo, half_dt)
+            # the norm is needed if the coefficient site is taken from this state (``tdvp_cmf_c_trapz``)
+            environ_mps = self.evolve(mpo, half_dt, normalize=False)
             self.evolve_config = orig_config
         else:
             # mps at t=0 as environment
